@@ -311,12 +311,12 @@ static uint64_t canon_ple(opcase_t *c) {
 }
 
 /* ------------------------------------------------------------------ TRSM (C04), TRTRI (C05) */
-enum { T_UL, T_LL, T_UR, T_LR, T__UL, T__LL, T__UR, T__LR, T_TRTRI };
+enum { T_UL, T_LL, T_UR, T_LR, T__UL, T__LL, T__UR, T__LR, T_TRTRI, T_TRTRI_RUSSIAN };
 static void gen_trsm(opcase_t *c, rng_t *r, int maxdim) {
   int v = c->op->variant;
   int sp[] = {GC.mul_block - 1, GC.mul_block, GC.mul_block + 1, 2 * GC.mul_block + 3, 64, 65, 128, 129, 63, 127};
   int n = gen_dim_sp(r, sp, 10, maxdim);
-  if (v == T_TRTRI) {
+  if (v == T_TRTRI || v == T_TRTRI_RUSSIAN) {
     /* recursion threshold of trtri: n*n >= 2*L3 */
     int thr = 1;
     while ((long)thr * thr < 2L * GC.l3) thr++;
@@ -328,8 +328,9 @@ static void gen_trsm(opcase_t *c, rng_t *r, int maxdim) {
     rm_t *J = gen_tri_junk(r, n, 0, sparse);
     c->in[0] = rm_unit_tri(J, 0); /* a genuine unit upper triangular matrix */
     rm_free(J);
-    snprintf(c->pcls, sizeof c->pcls, "%s", n >= thr_here ? "recursive" : "base");
-    snprintf(c->desc, sizeof c->desc, "n=%d sparse=%d", n, sparse);
+    c->ip[0] = rng_int(r, 0, 12); /* explicit table parameter of the Four-Russians variant */
+    snprintf(c->pcls, sizeof c->pcls, "%s", v == T_TRTRI_RUSSIAN ? "russian" : n >= thr_here ? "recursive" : "base");
+    snprintf(c->desc, sizeof c->desc, "n=%d sparse=%d k=%ld", n, sparse, v == T_TRTRI_RUSSIAN ? c->ip[0] : 0L);
     hx_cls("%s:%s:%c%c:%d", c->op->name, c->pcls, dimcls(n), modcls(n), sparse);
     if (n >= thr_here) hx_tag("trtri_recursive");
     c->nontrivial = n > 1;
@@ -368,11 +369,12 @@ static void run_trsm(opcase_t *c) {
   case T__UR: _mzd_trsm_upper_right(T, c->o[1]->M, cutoff); break;
   case T__LR: _mzd_trsm_lower_right(T, c->o[1]->M, cutoff); break;
   case T_TRTRI: c->ret = mzd_trtri_upper(T); break;
+  case T_TRTRI_RUSSIAN: c->ret = mzd_trtri_upper_russian(T, (int)c->ip[0]); break;
   }
 }
 static void check_trsm(opcase_t *c) {
   int v = c->op->variant;
-  if (v == T_TRTRI) {
+  if (v == T_TRTRI || v == T_TRTRI_RUSSIAN) {
     const rm_t *U0 = INV(c, 0);
     rm_t *X = opnd_value(c->o[0]);
     int n = U0->n, bad = 0;
@@ -491,6 +493,9 @@ static void gen_solve(opcase_t *c, rng_t *r, int maxdim) {
   for (int i = 0; i < m; i++) memcpy(B->e + (size_t)i * w, AX->e + (size_t)i * w, w);
   const char *where = "consistent";
   int mode = rng_int(r, 0, 9);
+  /* without the inconsistency check the result is only defined for consistent systems: use those */
+  int icheck = !rng_chance(r, 1, 4);
+  if (!icheck) mode = 9;
   if (mode < 3) {
     /* inconsistent: add a vector outside the column space to one column of B */
     uint8_t *y = left_kernel_vec(A, r);
@@ -516,8 +521,10 @@ static void gen_solve(opcase_t *c, rng_t *r, int maxdim) {
   c->in[0] = A;
   c->in[1] = B;
   c->ip[0] = CUTOFFS[rng_int(r, 0, NCUT - 1)];
+  c->ip[1] = icheck;
+  if (!icheck) where = "consistent-nocheck";
   snprintf(c->pcls, sizeof c->pcls, "%s", where);
-  snprintf(c->desc, sizeof c->desc, "m=%d n=%d w=%d %s rhs=%s cutoff=%ld", m, n, w, d, where, c->ip[0]);
+  snprintf(c->desc, sizeof c->desc, "m=%d n=%d w=%d %s rhs=%s cutoff=%ld check=%d", m, n, w, d, where, c->ip[0], icheck);
   hx_cls("%s:%s:%s:%c%c%c:%d", c->op->name, where, m < n ? "m<n" : m == n ? "m=n" : "m>n", dimcls(m), dimcls(n), dimcls(w), kind);
   hx_tag("rhs_%s", where);
 }
@@ -525,7 +532,7 @@ static void run_solve(opcase_t *c) {
   mzd_t *A = c->o[0]->M, *B = c->o[1]->M;
   c->niret = 1;
   if (c->op->variant == S_SOLVE) {
-    c->iret[0] = mzd_solve_left(A, B, (int)c->ip[0], 1);
+    c->iret[0] = mzd_solve_left(A, B, (int)c->ip[0], (int)c->ip[1]);
   } else {
     /* factorise a private copy first; the factorisation itself is checked by C03 */
     mzd_t *F = mzd_copy(NULL, A);
@@ -535,7 +542,7 @@ static void run_solve(opcase_t *c) {
     c->iret[1] = rk;
     opnd_t *fo = opnd_wrap(F);
     opnd_snapshot(fo);
-    c->iret[0] = mzd_pluq_solve_left(F, rk, c->P, c->Q, B, (int)c->ip[0], 1);
+    c->iret[0] = mzd_pluq_solve_left(F, rk, c->P, c->Q, B, (int)c->ip[0], (int)c->ip[1]);
     if (opnd_total_diff(fo)) opcase_fail(c, "operand-modified", "factor matrix changed by mzd_pluq_solve_left");
     opnd_free(fo);
   }
@@ -637,6 +644,7 @@ const op_t OPS_ELIM[] = {
     OP1("_mzd_trsm_upper_right", "trsm", R_RO, R_RW, 0, 0, T__UR, gen_trsm, run_trsm, check_trsm, NULL),
     OP1("_mzd_trsm_lower_right", "trsm", R_RO, R_RW, 0, 0, T__LR, gen_trsm, run_trsm, check_trsm, NULL),
     OP1("mzd_trtri_upper", "inv", R_RW, 0, 0, 0, T_TRTRI, gen_trsm, run_trsm, check_trsm, NULL),
+    OP1("mzd_trtri_upper_russian", "inv", R_RW, 0, 0, 0, T_TRTRI_RUSSIAN, gen_trsm, run_trsm, check_trsm, NULL),
     OP1("mzd_inv_m4ri", "inv", R_RW, R_RO, 0, 0, I_M4RI, gen_inv, run_inv, check_inv, NULL),
     OP1("mzd_invert_naive", "inv", R_RW, R_RO, R_RO, 0, I_NAIVE, gen_inv, run_inv, check_inv, NULL),
     OP1("mzd_solve_left", "solve", R_RW, R_RW, 0, OPF_NONUNIQUE, S_SOLVE, gen_solve, run_solve, check_solve, canon_solve),
